@@ -24,6 +24,7 @@ type crashDB struct {
 	dead     bool // a unit was dropped
 	log      []crashUnit
 	keepLog  bool
+	nDeletes int // delete operations that reached the disk
 }
 
 func newCrashDB() *crashDB { return &crashDB{mem: dbm.NewMemDB(), dieAfter: -1} }
@@ -75,6 +76,7 @@ func (c *crashDB) Set(k, v []byte) {
 func (c *crashDB) SetSync(k, v []byte) { c.Set(k, v) }
 func (c *crashDB) Delete(k []byte) {
 	if c.admit(crashUnit{Deletes: []string{string(k)}}) {
+		c.nDeletes++
 		c.mem.Delete(k)
 	}
 }
@@ -114,6 +116,7 @@ func (b *crashBatch) Write() {
 	if b.db.admit(u) {
 		for _, o := range b.ops {
 			if o.del {
+				b.db.nDeletes++
 				b.db.mem.Delete(o.k)
 			} else {
 				b.db.mem.Set(o.k, o.v)
